@@ -206,6 +206,7 @@ class ModuleInfo:
 class Repo:
     def __init__(self, root: Path = None, sources: dict = None):
         self.root = Path(root) if root else REPO
+        self.from_sources = sources is not None
         self.modules = {}
         self.digest = hashlib.sha256()
         pkgdir = self.root / PKG
@@ -321,12 +322,21 @@ class Repo:
             if kinds == {"typing"} or kinds <= {"typing", "from"}:
                 bs = [b for b in bs if b[0] != "typing"] or bs[:1]
             if len(bs) > 1:
-                raise AnalysisError(f"{mod.relpath}: top-level name {name!r} bound {len(bs)} times")
+                if all(k in ("func", "class", "from", "import") for k, _ in bs):
+                    bs = bs[-1:]       # a def / class / import that shadows an earlier one: the last top-level binding is what
+                    #                    every function body sees when it runs
+                else:
+                    raise AnalysisError(f"{mod.relpath}: top-level name {name!r} bound {len(bs)} times")
         kind, payload = bs[0]
         if kind in ("func", "class", "typing"):
             return (kind, payload)
         if kind == "assign":
             value, idx, st = payload
+            if isinstance(value, ast.Name) and idx is None and value.id != name:
+                # `exp_by_p = frobenius`: another name for a function or class
+                r = self.resolve_binding(mod, value.id, _seen)
+                if r is not None and r[0] in ("func", "class"):
+                    return r
             return ("assign", (mod, value, idx, st))
         if kind == "import":
             top = payload
